@@ -130,6 +130,18 @@ func main() {
 			return
 		}
 		fmt.Printf("READ-OK %s gen=%d\n", digest(a.GetClientConfPtr()), a.GetGeneration())
+	case "poststore":
+		// a healthy small store in a fresh process after a crash
+		a, err := assets.AssetsSetDir(os.Args[2])
+		if err != nil {
+			fmt.Printf("POST-LOAD-ERROR %v\n", err)
+			return
+		}
+		if err := a.SetGeneration(4242); err != nil {
+			fmt.Printf("POST-STORE-ERROR %v\n", err)
+			return
+		}
+		fmt.Printf("POST-OK %s\n", digest(a.GetClientConfPtr()))
 	case "child":
 		runtime.LockOSThread()
 		dir, resfile := os.Args[2], os.Args[3]
@@ -159,7 +171,7 @@ func main() {
 			marker(fmt.Sprintf("step-%d", i+1))
 			after := digest(a.GetClientConfPtr())
 			out += fmt.Sprintf("STEP %d err=%v before=%s mem=%s whole=%v gen=%d\n", i+1, err != nil, before, after, s.whole, a.GetGeneration())
-			if err != nil {
+			if err != nil && os.Getenv("VERIF_CONTINUE") == "" {
 				break
 			}
 		}
